@@ -11,6 +11,7 @@ from core import *
 
 NEEDS = ["Jacobian", "JacobianProofs", "JacobianReal", "Corr"]
 GUARD_DELAYED = "no_delayed_factor_in_j0"
+GUARD_IDCHAIN = "no_identity_chain_product"     # finding C12-F5: loud TypeError of get_jacobian_func at compile time
 
 
 def _switch(name):
@@ -343,7 +344,7 @@ def gen_case(rng, allow_viol=False, absv=False, want_delay=None, fns=False, npar
     delays = (rng.random() < 0.55) if want_delay is None else want_delay
     names = ["A", "B", "C"][:nn]
     ni = [rng.randint(0, 2) for _ in range(nn)]
-    # edges: at most one per (source node, target node)  [two variables of one node into one target: defect D3, not C12]
+    # edges between every pair of nodes (also self-loops)
     edges = []
     for t in range(nn):
         for s in range(nn):
@@ -354,6 +355,9 @@ def gen_case(rng, allow_viol=False, absv=False, want_delay=None, fns=False, npar
                     src = ("state", rng.randrange(ns[s]))
                     d = rng.choice(["1/4", "1/2", "3/4", "1", "1", "5/4", "3/2", "2"]) if (delays and rng.random() < 0.4) else None
                 edges.append([s, src, t, dy(rng, -2, 2, 4, nonzero=True), d])
+                # a second variable of the same source node into the same target (defect D3, repaired by D59)
+                if ns[s] > 1 and src[0] == "state" and rng.random() < 0.25:
+                    edges.append([s, ("state", (src[1] + 1) % ns[s]), t, dy(rng, -2, 2, 4, nonzero=True), None])
     # unit-weight undelayed edges whose source also feeds a delayed edge, bare copies `m = s_in` (nested identity markers, repaired by
     # fix D50) and lone sin / cos calls (import of derivative-only functions, fix D51) are part of the stream
     if distinct_weights:        # the auto stream identifies an edge weight argument by (target node, value)
@@ -750,6 +754,20 @@ def model_compare_auto(ctx, cases, outs, tag):
     return res
 
 
+def identity_markers(case):
+    """number of pass-through markers identity(...) the model compiles to: unit-weight undelayed edges and bare copies"""
+    n = sum(1 for e in case["edges"] if Fr(e[3]) == 1 and e[4] is None)
+    n += sum(1 for nd in case["nodes"] for e in [s_[2] for s_ in nd["states"]] + [i_[1] for i_ in nd["inters"]] if e[0] == "v")
+    return n
+
+
+def is_idchain_failure(case, out):
+    """the symptom of finding C12-F5 and nothing else: get_jacobian_func (not get_run_func) raises sympy's sort TypeError on a
+    model with at least two identity markers"""
+    return (isinstance(out, dict) and out.get("err") == "exception" and out.get("type") == "TypeError"
+            and "StrictGreaterThan" in out.get("msg", "") and "get_jacobian_func" in out.get("tb", "") and identity_markers(case) >= 2)
+
+
 def check_defaults(case, out):
     """every argument of the generated functions is either a parameter set by the point or an edge weight the model knows"""
     ws = sorted(Fr(e[3]) for e in case["edges"])
@@ -895,6 +913,9 @@ def check(ctx):
     guard_viol = {}
     for i in res["delayed"]:
         guard_viol.setdefault(i, []).append(GUARD_DELAYED)
+    for i in crashed:
+        if is_idchain_failure(cases[i], outs[i]):
+            guard_viol.setdefault(i, []).append(GUARD_IDCHAIN)
     bad_impl = sorted(set(res["badI"]) | set(res["badF"]))
     smap_diff = [i for i in good if not cases[i].get("auto") and outs[i]["smap_run"] != outs[i]["dense"]["smap"]]
     n_au = [i for i in good if cases[i].get("auto")]
